@@ -326,19 +326,25 @@ structure AI where
   digest : Bytes := []
 deriving DecidableEq, Repr
 
-/-- backend->digest(): H(A1) for ai.username (and the user name, which the htdigest
-    backend replaces when looking up by userhash) -/
-def backendDigest (P : Prims) (cfg : Cfg) (ai : AI) : Option AI :=
+/-- the record a Digest backend holds for `name`: (user name, H(A1)).  The plain backend
+    computes H(name ":" realm ":" password); the htdigest backend reads it from the file
+    (looking `name` up in the userhash column when `userhash`, and then returning the
+    user name of that line). -/
+def backendLookup (P : Prims) (cfg : Cfg) (realm : Bytes) (userhash : Bool) (dlen : Nat) (name : Bytes) :
+    Option (Bytes × Bytes) :=
   match cfg.backend with
   | .plain =>
-    match htpasswdGet cfg.file ai.username with
+    match htpasswdGet cfg.file name with
     | none => none
-    | some pw => some { ai with digest := ha1 P ai.username ai.realm pw }
-  | .htdigest =>
-    match htdigestScan ai.realm ai.userhash ai.dlen (fileLines cfg.file) ai.username with
-    | none => none
-    | some (u, d) => some { ai with username := u, digest := d }
+    | some pw => some (name, ha1 P name realm pw)
+  | .htdigest => htdigestScan realm userhash dlen (fileLines cfg.file) name
   | _ => none
+
+/-- backend->digest() -/
+def backendDigest (P : Prims) (cfg : Cfg) (ai : AI) : Option AI :=
+  match backendLookup P cfg ai.realm ai.userhash ai.dlen ai.username with
+  | none => none
+  | some (u, d) => some { ai with username := u, digest := d }
 
 /-! ### outcomes, state -/
 
